@@ -501,6 +501,8 @@ class FitBase(FileIOMixin, object):
             _model_node = self._nexus.get(_model_name)
             if _model_node is not None:
                 _model_node.mark_for_update()
+        if self._implicit_no_errors and self.has_errors:
+            self._on_error_change()  # the new data come with uncertainties: switch to the chi2 cost function using them
 
     @property
     def data_error(self):
